@@ -12,8 +12,15 @@ tokens = `err:<class>` | `-` (no token) | `line.q.texthex,…` with q ∈ n (unq
                `cmdFmtOut` = Format of the file's bytes, untouched on the way in and out; E = 1 iff
                the command reports "input is not formatted" (modes p and d; the comparison there,
                `caddyfile.FormattingDifference`, is made after CR LF → LF on a private copy)
+
+  ev <hex>     the tokens the PARSER works on — `allTokens x = Tokenize (replaceEnvVars x)`, the `{$NAME:default}`
+               pass runs on the raw bytes before lexing — for x and for Format(x), environment = `envTable`:
+               answer `T:<tokens> U:<tokens>` (replaceEnvVars: the C16 model, ParseGlue.lean)
+  fd <hex>     `caddyfile.FormattingDifference`: answer `D:0` | `D:1 L:<line of the first differing byte>`
+  ad <hex>     the real adapter on x and Format(x): implementation-side oracle only, answer `ad`
 -/
 import CaddyModel.C17.Fragment
+import CaddyModel.C17.Glue
 
 namespace CaddyModel.C17
 
@@ -43,12 +50,6 @@ def roundTrip (b : Bytes) : String :=
   " I:" ++ (if formatBytes (formatBytes b) = formatBytes b then "1" else "0") ++
   " W:" ++ (if inW (decodeUtf8 b) then "1" else "0")
 
-/-- `bytes.Replace(body, "\r\n", "\n", -1)` -/
-def normCRLF : Bytes → Bytes
-  | [] => []
-  | [c] => [c]
-  | c :: d :: t => if c = 13 ∧ d = 10 then 10 :: normCRLF t else c :: normCRLF (d :: t)
-
 /-- **the glue of the command** (cmd/commandfuncs.go cmdFmt): what `caddy fmt <file>` prints, what
     `caddy fmt --overwrite <file>` leaves in the file, what `caddy fmt -` prints for the bytes on
     stdin — in every mode `Format` of exactly the bytes read, emitted unchanged -/
@@ -62,7 +63,31 @@ def cmdFmtExit (mode : String) (b : Bytes) : Nat :=
 def cmdFmtLine (mode : String) (b : Bytes) : String :=
   "C:" ++ (if mode = "d" then "-" else Hex.encode (cmdFmtOut mode b)) ++ " E:" ++ toString (cmdFmtExit mode b)
 
+/-! ### the glue towards the parser and the adapter -/
+
+/-- the environment of the `ev` op (the harness sets exactly these; `V17U` is unset) -/
+def envTable : List (String × String) :=
+  [("V17A", "b c"), ("V17Q", "\"q  r\""), ("V17NL", "x\ny"), ("V17E", ""), ("V17BR", "{"), ("V17HD", "<<EOF"), ("V17N", "{$V17A}")]
+
+def envFn (k : Bytes) : Option Bytes :=
+  (envTable.find? fun kv => kv.1.toUTF8.toList == k).map fun kv => kv.2.toUTF8.toList
+
+def parserToks (b : Bytes) : String :=
+  match allTokens envFn b with
+  | some r => showToks r
+  | none => "panic"
+
+def evLine (b : Bytes) : String := "T:" ++ parserToks b ++ " U:" ++ parserToks (formatBytes b)
+
+def fdLine (b : Bytes) : String :=
+  match formattingDifference b with
+  | none => "D:0"
+  | some l => "D:1 L:" ++ toString l
+
 def handle : List String → String
+  | ["ev", inp] => match Hex.decode inp with | some b => evLine b | none => "bad-op"
+  | ["fd", inp] => match Hex.decode inp with | some b => fdLine b | none => "bad-op"
+  | ["ad", inp] => match Hex.decode inp with | some _ => "ad" | none => "bad-op"
   | ["rt", inp] =>
     match Hex.decode inp with
     | some b => roundTrip b
